@@ -30,7 +30,8 @@ LEVEL_TEXT = (
     "zero-column leaves and loose row bounds; rows, multiplicity and order compared with the reference evaluator for the "
     "root and every intermediate relation.  Plus an exhaustive matrix: every subset of {sort, projection, deduplication, "
     "slice} followed by every sequence of 2 (thorough: 3) further operations from a list of 13, on 3 bases x 2 data sets.  "
-    "Every second program is also chained with the same program over twin leaves (same names, other rows)."
+    "Every second program is also chained with the same program over twin leaves (same names, other rows); calculations, sort "
+    "terms and selections may use a user-defined column function that each engine registers with its own meaning."
 )
 LEVEL_NOTE = "trusts: reference evaluator ev_list; assumes the documented key-column precondition (P1) - cases violating it at a deduplication are discarded and counted"
 RULE = (
